@@ -296,6 +296,11 @@ pub fn xpred<A: Val>(id: u32, a: &A) -> bool {
 pub fn ins<A: Val>(id: u32) -> impl Fn(&A) + Copy + Send + Sync + 'static {
     move |a: &A| xins::<A>(id, a)
 }
+/// the same inspector holding an `Rc`: neither `Send` nor `Sync` (the non-spawning macros must accept it)
+pub fn ins_ns<A: Val>(id: u32) -> impl Fn(&A) + 'static {
+    let keep = std::rc::Rc::new(id);
+    move |a: &A| xins::<A>(*keep, a)
+}
 pub fn xins<A: Val>(id: u32, a: &A) {
     call(id, a.hashv());
 }
